@@ -160,6 +160,12 @@ def _impl(tier, seed, search):
             if ok:
                 L.check('SE3.interp-vector:len', len(r) == 3, inp, 'vector of s does not yield the corresponding sequence')
                 if len(r) == 3 and r[1].A is not None: either_arc('SE3.interp-vector', r[1].A[:3, :3], R0, ax, th, 0.3, inp)
+        # a vector of s with one element outside [0, 1] (by any amount) is rejected as the scalar is — 3-D and 2-D classes, with and without start
+        if i % 4 == 3:
+            for badv in ([0.0, 0.5, 1.0 + 10.0 ** g.uniform(-9, 0)], [-10.0 ** g.uniform(-9, 0), 0.5], [0.2, 1.25, 0.4]):
+                for cls3, M1_, M0_ in ((SE3, T1, T0), (SO3, R1, R0)):
+                    L.raises(f'{cls3.__name__}.interp(vector):range', lambda: cls3(M1_, check=False).interp(badv, start=cls3(M0_, check=False)), dict(cls=cls3.__name__, s=badv), f'{cls3.__name__}.interp with a vector s holding an element outside [0,1] must raise', sig='interp(vector):range')
+                    L.raises(f'{cls3.__name__}.interp(vector, no start):range', lambda: cls3(M1_, check=False).interp(badv), dict(cls=cls3.__name__, s=badv), f'{cls3.__name__}.interp(vector s) must reject an element outside [0,1]', sig='interp(vector):range')
         # a vector of s yields, element by element, the scalar results — whatever its end points and order (SO3 and SE3, with and without start)
         if i % 4 == 1:
             for sv2 in ([0.0, 0.25, 0.5], [0.2, 0.7], [1.0, 0.4, 0.0], np.linspace(0, 0.5, 5)):
